@@ -18,11 +18,14 @@ def mk_gen(name, path, prio, out, reload, safe, supports=True, how="class"):
     from annet.generators.entire import Entire
 
     def run(self, device):
+        if not supports and how.endswith("+raise"):
+            from annet.generators.exceptions import NotSupportedDevice
+            raise NotSupportedDevice("not for this box")     # the other way to decline a device: from inside run()
         yield out
     attrs = {"path": lambda s, d: path, "run": run, "reload": lambda s, d: reload, "is_safe": lambda s, d: safe, "TAGS": []}
-    if not supports:
+    if not supports and not how.endswith("+raise"):
         attrs["supports_device"] = lambda s, d: False       # the hook is overridable on its own: path() still names a file
-    if how == "instance":
+    if how.startswith("instance"):
         # the priority is decided per instance (from the inventory, say) before delegating to Entire.__init__, which keeps a value it finds
         def init(self, storage):
             self.prio = prio
@@ -78,7 +81,7 @@ def run(ctx):
             used.add((p, pr))
             gs.append({"path": p, "prio": pr, "out": rnd.choice(outs), "reload": rnd.choice(["", "reload %d" % gi, "systemctl restart x"]),
                        "safe": rnd.random() < 0.6, "name": "G%d" % gi, "supports": rnd.random() >= 0.15,
-                       "how": rnd.choice(["class", "class", "instance"])})
+                       "how": rnd.choice(["class", "class", "instance"]) + rnd.choice(["", "+raise"])})
         old = {p: rnd.choice(olds) for p in paths + ["/etc/other"]}
         old = {p: c for p, c in old.items() if c is not None}
         orders = list(itertools.permutations(gs)) if len(gs) <= 3 else rnd.sample(list(itertools.permutations(gs)), 6)
